@@ -37,6 +37,15 @@ CHECKS = {
             "(scripted condition per trigger) under direct, nested (re-dispatch from the wrapped listener) and queued triggers; the cover runs on "
             "the real helpers (created as temporaries) over EventDispatcher/EventQueue worlds; TraceDQ.tla demands exactly the promised invocations.",
             "TLA+ model checking (TLC) of the reference model + transition-cover replay + TLC trace validation"),
+    "C18": (MC, "7/C18", "seq",
+            "AnyId.tla transcribes ==, < and the hash of anyid.h over ids [digest, value] with colliding digests and states the laws (== an "
+            "equivalence, < a strict weak order whose incomparability is ==, equal ids hash equally, map lookups find exactly the equal ids) as "
+            "invariants that TLC checks over the whole universe, for a comparing and a non-comparing Storage; its generator enumerates every "
+            "ordered triple of (value, C++ type) probes; the harness builds the real AnyIds from int / long / std::string with a digester that "
+            "spreads digests over the 64-bit range, records ==, <, hash equality and which listeners a dispatch by id reaches in std::map and "
+            "std::unordered_map dispatchers; TraceAnyId.tla requires == and hash coherence to equal the reference and the recorded < facts of "
+            "each triple to satisfy the order laws.",
+            "TLA+ model checking (TLC) of the operator laws + exhaustive triple enumeration replayed on the real AnyId + TLC trace validation"),
     "C19": (MC, "7/C19", "seq",
             "CLImpl.tla with the counter maximum scaled down so the wrap-around falls at every position of every bounded history; the guarded hook "
             "puts the real 32-bit counter at the same distance from 2^32-1; TraceCL.tla allows the one freedom the statement grants (invocations in "
